@@ -51,7 +51,7 @@ def budget(tier):
 def _case(draw):
     v = draw(st.sampled_from([1] * 4 + [2]))
     cfg = {"v": v, "in": draw(pipeline.st_rail_kinds(v, 0, 2, "in")), "out": draw(pipeline.st_rail_kinds(v, 1, 3, "out"))}
-    cfg["dialog"] = draw(st.sampled_from([True, True, False]))
+    cfg["dialog"] = draw(st.sampled_from([True, True, False])) if v == 1 else draw(st.sampled_from([False, True, "llmc"]))
     cfg["exc"] = draw(st.sampled_from([False, False, True]))
     if v == 1:
         cfg["ret"] = 0
@@ -82,7 +82,7 @@ def enumerate_cases(tier):
         kinds_list = [["check", "self"], ["check", "check"]] if v == 2 else [["check", "both"], ["rewrite", "self"], ["both"]]
         for kinds in kinds_list:
             for exc in (False, True):
-                for dialog in (True, False):
+                for dialog in (True, False) if v == 1 else (True, False, "llmc"):
                     cfg = {"v": v, "in": ["check"], "out": kinds, "dialog": dialog, "exc": exc}
                     if v == 2:
                         cfg["style"] = "config"
@@ -95,7 +95,7 @@ def enumerate_cases(tier):
                                 e = ["accept"] * len(kinds)
                                 e[i] = verdict
                                 events.append(e)
-                    for first in ("llm", "predef") if dialog else ("llm",):
+                    for first in ("llm", "predef") if dialog else ("llm",):  # (dialog "llmc" has both routes too)
                         for ev in events:
                             turns = []
                             for t, (route, out) in enumerate([(first, ["accept"] * len(kinds)), ("llm", ev), ("llm", ["accept"] * len(kinds))]):
@@ -127,7 +127,7 @@ def _aborts_before(case, obs, t):
 def _check(case, obs):
     cfg = case["config"]
     v = cfg["v"]
-    labels = [f"v{v}", "dialog" if cfg["dialog"] else "general-mode", f"out-rails={len(cfg['out'])}", f"turns={len(case['turns'])}", case.get("api", "sync")]
+    labels = [f"v{v}", ("llm-continuation" if cfg["dialog"] == "llmc" else "dialog") if cfg["dialog"] else "general-mode", f"out-rails={len(cfg['out'])}", f"turns={len(case['turns'])}", case.get("api", "sync")]
     if cfg["exc"]:
         labels.append("rails-exceptions")
     if v == 2:
